@@ -131,66 +131,56 @@ func LocksWholeBody(fd *ast.FuncDecl) bool {
 	return ok && isCall(ds.Call, ".out.Unlock")
 }
 
-func mentions(fd *ast.FuncDecl, suffix string) bool {
-	found := false
-	ast.Inspect(fd.Body, func(n ast.Node) bool {
-		if se, ok := n.(*ast.SelectorExpr); ok && strings.HasSuffix(selString(se), suffix) {
-			found = true
-		}
-		return !found
-	})
-	return found
-}
-
-// onlyProbes: the function mentions the selector, and every mention is the operand of a
-// type assertion (it inspects the value, it does not call through it).
-func onlyProbes(fd *ast.FuncDecl, suffix string) bool {
-	total, asserted := 0, 0
-	ast.Inspect(fd.Body, func(n ast.Node) bool {
-		switch x := n.(type) {
-		case *ast.TypeAssertExpr:
-			if strings.HasSuffix(selString(x.X), suffix) {
-				asserted++
-			}
-		case *ast.SelectorExpr:
-			if strings.HasSuffix(selString(x), suffix) {
-				total++
-				return false
-			}
-		}
-		return true
-	})
-	return total > 0 && total == asserted
-}
-
-func callsIn(n ast.Node, name string) bool {
-	found := false
-	ast.Inspect(n, func(x ast.Node) bool {
-		if c, ok := x.(*ast.CallExpr); ok {
-			if se, ok := c.Fun.(*ast.SelectorExpr); ok && se.Sel.Name == name {
-				found = true
-			}
-		}
-		return !found
-	})
-	return found
-}
-
-func mentionsNode(n ast.Node, suffix string) bool {
-	found := false
-	ast.Inspect(n, func(x ast.Node) bool {
-		if se, ok := x.(*ast.SelectorExpr); ok && strings.HasSuffix(selString(se), suffix) {
-			found = true
-		}
-		return !found
-	})
-	return found
-}
-
 // PackageVars is packageVars for the other properties' fact generators.
 func PackageVars(dir string) ([]string, error) { return packageVars(dir) }
 
 // packageVars lists the package-level variables of the non-test files of a directory.
+// mutablePackageVars is packageVars without what cannot carry state from one call to the next:
+// the blank identifier (interface assertions) and error sentinels (initialised by errors.New
+// or fmt.Errorf and nothing else).
+func mutablePackageVars(dir string) ([]string, error) {
+	ents, err := os.ReadDir(dir)
+	if err != nil {
+		return nil, err
+	}
+	fset := token.NewFileSet()
+	var out []string
+	for _, e := range ents {
+		n := e.Name()
+		if e.IsDir() || !strings.HasSuffix(n, ".go") || strings.HasSuffix(n, "_test.go") {
+			continue
+		}
+		f, err := parser.ParseFile(fset, filepath.Join(dir, n), nil, 0)
+		if err != nil {
+			return nil, err
+		}
+		for _, d := range f.Decls {
+			gd, ok := d.(*ast.GenDecl)
+			if !ok || gd.Tok != token.VAR {
+				continue
+			}
+			for _, sp := range gd.Specs {
+				vs := sp.(*ast.ValueSpec)
+				for i, id := range vs.Names {
+					if id.Name == "_" {
+						continue
+					}
+					if i < len(vs.Values) {
+						if c, ok := vs.Values[i].(*ast.CallExpr); ok {
+							if fn := selString(c.Fun); fn == "errors.New" || fn == "fmt.Errorf" {
+								continue
+							}
+						}
+					}
+					out = append(out, strconv.Quote(id.Name))
+				}
+			}
+		}
+	}
+	sort.Strings(out)
+	return out, nil
+}
+
 func packageVars(dir string) ([]string, error) {
 	ents, err := os.ReadDir(dir)
 	if err != nil {
@@ -221,200 +211,153 @@ func packageVars(dir string) ([]string, error) {
 	return out, nil
 }
 
-func callsMethod(fd *ast.FuncDecl, name string) bool {
-	found := false
-	ast.Inspect(fd.Body, func(n ast.Node) bool {
-		if c, ok := n.(*ast.CallExpr); ok {
-			if se, ok := c.Fun.(*ast.SelectorExpr); ok && se.Sel.Name == name {
-				found = true
-			}
-			if id, ok := c.Fun.(*ast.Ident); ok && id.Name == name {
-				found = true
-			}
-		}
-		return !found
-	})
-	return found
-}
-
 // Facts regenerates lean/XmppModel/Generated/C05.lean: the lock discipline of
-// every function of the root package that touches the output encoder.
+// every function of the root package that touches the output encoder (see lockflow.go).
 func Facts(repo string) (string, error) {
-	fds, err := PackageFuncs(repo)
+	lp, err := loadLockPkg(repo)
 	if err != nil {
 		return "", err
 	}
-	type row struct{ name, class string }
-	var rows []row
-	var probes []string
-	twLocks, closeUnlocks := "none", "none"
-	for _, fd := range fds {
-		rn := recvName(fd)
-		name := fd.Name.Name
-		if rn != "" && rn != "Session" {
-			name = rn + "." + name
-		}
-		if rn == "Session" && fd.Name.Name == "TokenWriter" {
-			ok := false
-			if len(fd.Body.List) >= 2 {
-				if es, isE := fd.Body.List[0].(*ast.ExprStmt); isE && isCall(es.X, ".out.Lock") {
-					if rs, isR := fd.Body.List[len(fd.Body.List)-1].(*ast.ReturnStmt); isR && len(rs.Results) == 1 {
-						if u, isU := rs.Results[0].(*ast.UnaryExpr); isU {
-							if cl, isC := u.X.(*ast.CompositeLit); isC && selString(cl.Type) == "lockWriteCloser" {
-								ok = true
-							}
-						}
-					}
-				}
-			}
-			twLocks = fmt.Sprintf("some %v", ok)
-		}
-		if rn == "lockWriteCloser" && fd.Name.Name == "Close" {
-			ok := false
-			for _, st := range fd.Body.List {
-				if ds, isD := st.(*ast.DeferStmt); isD && isCall(ds.Call, ".m.Unlock") {
-					ok = true
-				}
-			}
-			closeUnlocks = fmt.Sprintf("some %v", ok)
-		}
-		if !mentions(fd, ".out.e") {
-			continue
-		}
-		class := "unlocked"
-		switch {
-		case onlyProbes(fd, ".out.e"):
-			// looks at the encoder's state (type assertion), writes nothing: its callers must
-			// hold the lock (fact probeCallers)
-			class = "probe"
-			probes = append(probes, fd.Name.Name)
-		case rn == "lockWriteCloser":
-			class = "holder"
-		case fd.Name.Name == "negotiateSession" || fd.Name.Name == "writeStreamFeatures":
-			// stream negotiation: runs before NewSession hands the session to its user
-			class = "setup"
-		case LocksWholeBody(fd):
-			class = "locked"
-		}
-		rows = append(rows, row{name, class})
-	}
-	sort.Slice(rows, func(i, j int) bool { return rows[i].name < rows[j].name })
+	fds := lp.fds
 	var sb strings.Builder
 	sb.WriteString("-- GENERATED by `harness facts C05` from the root package of the repository; do not edit.\n")
 	sb.WriteString("namespace XmppModel.Generated.C05\n\n")
-	var l []string
-	for _, r := range rows {
-		l = append(l, fmt.Sprintf("(%q, %q)", r.name, r.class))
-	}
-	if len(rows) == 0 {
+	if lp.out == "" || lp.enc == "" {
+		// the output side of Session was not found: nothing can be said
 		sb.WriteString("def transmitFns : Option (List (String × String)) := none\n")
+		sb.WriteString("def entryGuard : Option (List (String × Bool)) := none\n")
+		sb.WriteString("def holderGuard : Option Bool := none\n")
+		sb.WriteString("def tokenWriterLocks : Option Bool := none\ndef closeUnlocks : Option Bool := none\ndef holderOnlyFromLocked : Option Bool := none\n")
 	} else {
-		fmt.Fprintf(&sb, "/-- every function that mentions `….out.e` and how it is protected -/\ndef transmitFns : Option (List (String × String)) := some [%s]\n", strings.Join(l, ", "))
-	}
-	// every caller of a probe is itself a locked function or a method of the lock holder
-	classOf := map[string]string{}
-	for _, r := range rows {
-		classOf[r.name] = r.class
-	}
-	var pc []string
-	for _, fd := range fds {
-		rn := recvName(fd)
-		name := fd.Name.Name
-		if rn != "" && rn != "Session" {
-			name = rn + "." + name
+		type row struct{ name, class string }
+		var rows []row
+		for _, fd := range fds {
+			if class, touches := lp.classOf(fd); touches {
+				rows = append(rows, row{lp.fname(fd), class})
+			}
 		}
-		for _, p := range probes {
-			if callsMethod(fd, p) {
-				cl := classOf[name]
-				if cl == "" {
-					cl = "unlocked"
-					if LocksWholeBody(fd) {
-						cl = "locked"
+		sort.Slice(rows, func(i, j int) bool { return rows[i].name < rows[j].name })
+		var l []string
+		for _, r := range rows {
+			l = append(l, fmt.Sprintf("(%q, %q)", r.name, r.class))
+		}
+		if len(rows) == 0 {
+			sb.WriteString("def transmitFns : Option (List (String × String)) := none\n")
+		} else {
+			fmt.Fprintf(&sb, "/-- every function that mentions the output encoder of a Session (found by type: field `%s.%s`) and how\nthat mention is protected -/\ndef transmitFns : Option (List (String × String)) := some [%s]\n", lp.out, lp.enc, strings.Join(l, ", "))
+		}
+		// the exported one-shot entry points: lock, deferred unlock, probe of the encoder's state
+		// with an early return, only then the first write
+		var gl []string
+		okAll := true
+		for _, n := range []string{"Encode", "EncodeElement", "Send", "SendElement"} {
+			found, ok := lp.entryGuarded(n)
+			if !found {
+				okAll = false
+			}
+			gl = append(gl, fmt.Sprintf("(%q, %v)", n, ok))
+		}
+		if okAll {
+			fmt.Fprintf(&sb, "def entryGuard : Option (List (String × Bool)) := some [%s]\n", strings.Join(gl, ", "))
+		} else {
+			sb.WriteString("def entryGuard : Option (List (String × Bool)) := none\n")
+		}
+		// the lock holder: what TokenWriter returns
+		twLocks, closeUnlocks, holderGuard, onlyLocked := "none", "none", "none", "none"
+		if lp.holder != "" {
+			onlyLockedB := true
+			for _, fd := range fds {
+				evs := lp.flow(fd)
+				held := heldAt(evs)
+				if recvName(fd) == "Session" && fd.Name.Name == "TokenWriter" {
+					locks, releases := false, false
+					for _, e := range evs {
+						switch e.kind {
+						case "lock":
+							locks = true
+						case "unlock", "defer-unlock":
+							releases = true
+						}
 					}
+					twLocks = fmt.Sprintf("some %v", locks && !releases)
 				}
-				pc = append(pc, fmt.Sprintf("(%q, %q)", name, cl))
-			}
-		}
-	}
-	sort.Strings(pc)
-	fmt.Fprintf(&sb, "def probeCallers : Option (List (String × String)) := some [%s]\n", strings.Join(pc, ", "))
-	// methods of stanzaEncoder: anything besides EncodeToken could touch the depth counter
-	// behind the model's back (a Flush that resets it, …)
-	var sem []string
-	guards := map[string]bool{}
-	for _, fd := range fds {
-		if recvName(fd) == "stanzaEncoder" {
-			sem = append(sem, strconv.Quote(fd.Name.Name))
-		}
-		name := fd.Name.Name
-		if rn := recvName(fd); rn != "" && rn != "Session" {
-			name = rn + "." + name
-		}
-		// calls outputBroken in an if that returns, before any other statement mentions .out.e
-		for _, st := range Stmts(fd) {
-			if is, ok := st.(*ast.IfStmt); ok && callsIn(is.Cond, "outputBroken") {
-				guards[name] = true
-				break
-			}
-			if mentionsNode(st, ".out.e") {
-				if _, isDefer := st.(*ast.DeferStmt); !isDefer {
-					break
+				if recvName(fd) == lp.holder && fd.Name.Name == "Close" {
+					deferred, plain := false, false
+					for _, e := range evs {
+						switch e.kind {
+						case "defer-unlock":
+							deferred = true
+						case "unlock":
+							plain = true
+						}
+					}
+					closeUnlocks = fmt.Sprintf("some %v", deferred && !plain)
 				}
+				if recvName(fd) == lp.holder && fd.Name.Name == "EncodeToken" {
+					holderGuard = fmt.Sprintf("some %v", lp.guardedBody(fd, false))
+				}
+				// every place that makes a value of the holder type holds the lock there
+				ast.Inspect(fd.Body, func(n ast.Node) bool {
+					cl, ok := n.(*ast.CompositeLit)
+					if !ok {
+						return true
+					}
+					if id, ok := cl.Type.(*ast.Ident); ok && id.Name == lp.holder {
+						h := false
+						for i, e := range evs {
+							if e.pos < cl.Pos() {
+								h = held[i]
+							}
+						}
+						if !h {
+							onlyLockedB = false
+						}
+					}
+					return true
+				})
 			}
+			onlyLocked = fmt.Sprintf("some %v", onlyLockedB)
 		}
+		fmt.Fprintf(&sb, "/-- `EncodeToken` of the type `TokenWriter` returns probes the encoder's state and returns early before it writes -/\ndef holderGuard : Option Bool := %s\n", holderGuard)
+		fmt.Fprintf(&sb, "def tokenWriterLocks : Option Bool := %s\n", twLocks)
+		fmt.Fprintf(&sb, "def closeUnlocks : Option Bool := %s\n", closeUnlocks)
+		fmt.Fprintf(&sb, "def holderOnlyFromLocked : Option Bool := %s\n", onlyLocked)
 	}
-	sort.Strings(sem)
-	fmt.Fprintf(&sb, "def stanzaEncoderMethods : Option (List String) := some [%s]\n", strings.Join(sem, ", "))
-	var gl []string
-	for _, n := range []string{"Encode", "EncodeElement", "send"} {
-		gl = append(gl, fmt.Sprintf("(%q, %v)", n, guards[n]))
+	// who changes the stanza encoder's state (the type named in the probes of the encoder's
+	// state): anything besides EncodeToken could move the depth counter behind the model's back
+	// (a Flush that resets it, a reset from the session's code, …); methods that only read
+	// are not listed
+	encType := lp.probedType()
+	if encType == "" {
+		sb.WriteString("def stanzaEncoderMethods : Option (List String) := none\n")
+		sb.WriteString("def stanzaEncoderOutsideWriters : Option (List String) := none\n")
+	} else {
+		q := func(l []string) string {
+			var o []string
+			for _, x := range l {
+				o = append(o, strconv.Quote(x))
+			}
+			return strings.Join(o, ", ")
+		}
+		ms, os := lp.encoderMutators(encType)
+		fmt.Fprintf(&sb, "/-- methods of the stanza encoder's type that assign to one of its fields -/\ndef stanzaEncoderMethods : Option (List String) := some [%s]\n", q(ms))
+		fmt.Fprintf(&sb, "/-- other functions that assign to a field of a value of that type -/\ndef stanzaEncoderOutsideWriters : Option (List String) := some [%s]\n", q(os))
 	}
-	fmt.Fprintf(&sb, "def brokenGuard : Option (List (String × Bool)) := some [%s]\n", strings.Join(gl, ", "))
 	// package-level variables of internal/marshal: state shared between calls and sessions
-	mg, err := packageVars(filepath.Join(repo, "internal", "marshal"))
+	mg, err := mutablePackageVars(filepath.Join(repo, "internal", "marshal"))
 	if err != nil {
 		sb.WriteString("def marshalGlobals : Option (List String) := none\n")
 	} else {
 		fmt.Fprintf(&sb, "def marshalGlobals : Option (List String) := some [%s]\n", strings.Join(mg, ", "))
 	}
-	// where the address the encoder stamps comes from: every assignment to the from field of a
-	// stanzaEncoder (assignment statements and composite literals), and what LocalAddr returns
-	var ef []string
-	localAddr := "none"
-	for _, fd := range fds {
-		if recvName(fd) == "stanzaEncoder" {
-			continue // the encoder reading its own field
-		}
-		if recvName(fd) == "Session" && fd.Name.Name == "LocalAddr" && len(fd.Body.List) == 1 {
-			if rs, ok := fd.Body.List[0].(*ast.ReturnStmt); ok && len(rs.Results) == 1 {
-				localAddr = "some " + strconv.Quote(exprString(rs.Results[0]))
-			}
-		}
-		ast.Inspect(fd.Body, func(n ast.Node) bool {
-			switch x := n.(type) {
-			case *ast.AssignStmt:
-				for i, l := range x.Lhs {
-					if se, ok := l.(*ast.SelectorExpr); ok && se.Sel.Name == "from" && i < len(x.Rhs) {
-						ef = append(ef, fmt.Sprintf("(%q, %q)", fd.Name.Name, exprString(x.Rhs[i])))
-					}
-				}
-			case *ast.CompositeLit:
-				if selString(x.Type) == "stanzaEncoder" {
-					for _, e := range x.Elts {
-						if kv, ok := e.(*ast.KeyValueExpr); ok && selString(kv.Key) == "from" {
-							ef = append(ef, fmt.Sprintf("(%q, %q)", fd.Name.Name, exprString(kv.Value)))
-						}
-					}
-				}
-			}
-			return true
-		})
+	// where the address the encoder stamps comes from: a probe of real sessions whose four
+	// addresses are pairwise different (probe.go)
+	fp, perr := probeFrom()
+	if perr != nil {
+		fp = "none"
+		fmt.Fprintf(&sb, "-- probeFrom failed: %s\n", strings.ReplaceAll(perr.Error(), "\n", " "))
 	}
-	sort.Strings(ef)
-	fmt.Fprintf(&sb, "/-- every assignment to the `from` field of a stanzaEncoder: function and assigned expression -/\ndef encoderFrom : Option (List (String × String)) := some [%s]\n", strings.Join(ef, ", "))
-	fmt.Fprintf(&sb, "/-- the expression `(*Session).LocalAddr` returns -/\ndef localAddrReturns : Option String := %s\n", localAddr)
-	fmt.Fprintf(&sb, "def tokenWriterLocks : Option Bool := %s\n", twLocks)
-	fmt.Fprintf(&sb, "def closeUnlocks : Option Bool := %s\n", closeUnlocks)
+	fmt.Fprintf(&sb, "/-- probe: (role of the session, stream namespace, the address `LocalAddr()` reports, the `from` stamped on\nan outgoing `<message/>`) for sessions whose four addresses are `inTo`, `inFrom`, `outFrom`, `outTo` -/\ndef fromProbe : Option (List (String × String × String × String)) := %s\n", fp)
 	sb.WriteString("\nend XmppModel.Generated.C05\n")
 	return sb.String(), nil
 }
